@@ -15,10 +15,10 @@ namespace evb {
 enum Kind : uint8_t { K_END = 0, K_ADD, K_DRAIN, K_REMOVE, K_PREPEND, K_ADD_BUFFER, K_REMOVE_BUFFER, K_PULLUP, K_COPYOUT, K_SEARCH,
   K_SEARCH_EOL, K_READLN, K_RESERVE_COMMIT, K_EXPAND, K_ADD_IOVEC, K_PEEK, K_PTR_SET, K_COPYOUT_FROM, K_PREPEND_BUFFER, K_PRINTF,
   K_FREEZE, K_UNFREEZE, K_ADD_REF, K_SEARCH_RANGE, K_CONTIG,
-  K_CB_ADD, K_CB_REMOVE, K_CB_FLAGS, K_TURN, K__N };
+  K_CB_ADD, K_CB_REMOVE, K_CB_FLAGS, K_TURN, K_BUFREF, K_RECREATE, K__N };
 static const char *const KNAME[] = {"end", "add", "drain", "remove", "prepend", "add_buffer", "remove_buffer", "pullup", "copyout", "search",
   "search_eol", "readln", "reserve+commit", "expand", "add_iovec", "peek", "ptr_set", "copyout_from", "prepend_buffer", "add_printf",
-  "freeze", "unfreeze", "add_reference", "search_range", "contiguous_space", "cb_add", "cb_remove", "cb_flags", "turn"};
+  "freeze", "unfreeze", "add_reference", "search_range", "contiguous_space", "cb_add", "cb_remove", "cb_flags", "turn", "add_buffer_reference", "free+new"};
 
 struct SizeSpec { uint8_t mode; int32_t v; };
 struct Op { uint8_t kind, b, b2, a1, a2, a3; SizeSpec n, n2, n3; uint32_t seed; };
@@ -44,9 +44,9 @@ static inline std::string specs(const SizeSpec &z) { static const char *M[] = {"
 
 // kind tables: index 0 must be K_END ("0 = most benign")
 static const uint8_t MIX_MODEL[] = {K_END, K_ADD, K_ADD, K_ADD, K_ADD, K_DRAIN, K_DRAIN, K_REMOVE, K_REMOVE, K_PREPEND, K_PREPEND, K_ADD_BUFFER, K_ADD_BUFFER,
-  K_REMOVE_BUFFER, K_REMOVE_BUFFER, K_REMOVE_BUFFER, K_PULLUP, K_PULLUP, K_COPYOUT, K_SEARCH, K_SEARCH, K_SEARCH_EOL, K_SEARCH_EOL, K_READLN, K_READLN,
-  K_RESERVE_COMMIT, K_RESERVE_COMMIT, K_RESERVE_COMMIT, K_EXPAND, K_EXPAND, K_ADD_IOVEC, K_ADD_IOVEC, K_PEEK, K_PEEK, K_PTR_SET, K_PTR_SET, K_COPYOUT_FROM,
-  K_PREPEND_BUFFER, K_PREPEND_BUFFER, K_PRINTF, K_PRINTF, K_FREEZE, K_UNFREEZE, K_UNFREEZE, K_ADD_REF, K_ADD_REF, K_SEARCH_RANGE, K_SEARCH_RANGE, K_CONTIG};
+  K_REMOVE_BUFFER, K_REMOVE_BUFFER, K_BUFREF, K_PULLUP, K_PULLUP, K_COPYOUT, K_SEARCH, K_SEARCH, K_SEARCH_EOL, K_SEARCH_EOL, K_READLN, K_READLN,
+  K_RESERVE_COMMIT, K_RESERVE_COMMIT, K_RESERVE_COMMIT, K_EXPAND, K_EXPAND, K_ADD_IOVEC, K_ADD_IOVEC, K_PEEK, K_PEEK, K_PTR_SET, K_BUFREF, K_COPYOUT_FROM,
+  K_PREPEND_BUFFER, K_PREPEND_BUFFER, K_PRINTF, K_PRINTF, K_FREEZE, K_UNFREEZE, K_BUFREF, K_ADD_REF, K_ADD_REF, K_SEARCH_RANGE, K_RECREATE, K_CONTIG};
 static const uint8_t MIX_CB[] = {K_END, K_ADD, K_ADD, K_ADD, K_DRAIN, K_DRAIN, K_REMOVE, K_PREPEND, K_ADD_BUFFER, K_REMOVE_BUFFER, K_REMOVE_BUFFER, K_READLN,
   K_RESERVE_COMMIT, K_ADD_IOVEC, K_PREPEND_BUFFER, K_PRINTF, K_FREEZE, K_UNFREEZE, K_ADD_REF, K_PULLUP, K_EXPAND,
   K_CB_ADD, K_CB_ADD, K_CB_ADD, K_CB_REMOVE, K_CB_FLAGS, K_CB_FLAGS, K_CB_FLAGS, K_TURN, K_TURN, K_TURN};
@@ -54,7 +54,7 @@ static const uint8_t MIX_OOM[] = {K_END, K_ADD, K_ADD, K_ADD, K_DRAIN, K_REMOVE,
   K_REMOVE_BUFFER, K_PULLUP, K_PULLUP, K_READLN, K_RESERVE_COMMIT, K_RESERVE_COMMIT, K_EXPAND, K_EXPAND, K_ADD_IOVEC, K_ADD_IOVEC, K_PREPEND_BUFFER, K_PRINTF,
   K_PRINTF, K_ADD_REF, K_FREEZE, K_UNFREEZE, K_SEARCH, K_COPYOUT};
 static const uint8_t MIX_SHAPE[] = {K_END, K_ADD, K_ADD, K_ADD, K_ADD, K_DRAIN, K_PREPEND, K_PREPEND, K_ADD_BUFFER, K_REMOVE_BUFFER, K_RESERVE_COMMIT, K_EXPAND,
-  K_ADD_IOVEC, K_PREPEND_BUFFER, K_PRINTF, K_ADD_REF, K_ADD_REF, K_PULLUP, K_FREEZE, K_UNFREEZE, K_UNFREEZE};
+  K_ADD_IOVEC, K_PREPEND_BUFFER, K_PRINTF, K_ADD_REF, K_BUFREF, K_PULLUP, K_FREEZE, K_UNFREEZE, K_UNFREEZE};
 
 static inline std::vector<Op> decode_ops(Src &s, int maxops, const uint8_t *mix, size_t mixlen) {
   std::vector<Op> v;
@@ -84,12 +84,12 @@ struct Exec {
   bool faulted(uint64_t f0) { bool f = w.oom_mode && sim_mem_failed > f0; if (f) w.oom_hit_in_op = true; return f; }
 
   void post(const char *name, unsigned touched = 7) {
-    if ((w.opno & 15) == 0) touched = 7;
+    if ((w.opno & 15) == 0 || w.sharing) touched = 7;   // shared chains: an op on one buffer must not change any other
     for (int bi = 0; bi < NB; bi++) {
       if (!(touched & (1u << bi))) continue;
       geo[bi] = validate(w.prop, bi, name);
       BufW &b = w.B[bi]; size_t L = b.m.len();
-      if (L <= 4300 || (w.opno & 15) == 0) {
+      if (!b.fd_only && (L <= 4300 || (w.opno & 15) == 0)) {
         std::string out; out.resize(L + 4);
         ev_ssize_t r = evbuffer_copyout(b.eb, &out[0], L + 3);
         if (L == 0) CHECK(r == 0, K("copyout-ret"), "after %s: copyout of empty buf%d returned %zd", name, bi, r);
@@ -147,6 +147,7 @@ struct Exec {
   }
   void op_add_buffer(const Op &o, bool pre) {
     int d = o.b, s = o.b2; BufW &D = w.B[d], &S = w.B[s]; size_t sl = S.m.len();
+    if (d != s && move_would_cycle(s, d)) { TR("  (%s buf%d<-buf%d skipped: would build a buffer-reference cycle)", pre ? "prepend_buffer" : "add_buffer", d, s); w.n_cycle_skips++; return; }
     if (geo[s].bounds.size() >= 1 || geo[d].bounds.size() >= 1) w.saw_move = w.saw_move || (sl > 0 && d != s);
     uint64_t f0 = sim_mem_failed;
     int rc = pre ? evbuffer_prepend_buffer(D.eb, S.eb) : evbuffer_add_buffer(D.eb, S.eb);
@@ -158,6 +159,7 @@ struct Exec {
   }
   void op_remove_buffer(const Op &o) {
     int s = o.b, d = o.b2; BufW &S = w.B[s], &D = w.B[d]; size_t n = resolve(o.n, geo[s], S.m.len()); size_t sl = S.m.len();
+    if (d != s && move_would_cycle(s, d)) { TR("  (remove_buffer buf%d->buf%d skipped: would build a buffer-reference cycle)", s, d); w.n_cycle_skips++; return; }
     uint64_t f0 = sim_mem_failed; w.op_multi_step = true;
     int rc = evbuffer_remove_buffer(S.eb, D.eb, n); w.op_multi_step = false;
     TR("  remove_buffer(src buf%d [%zu], dst buf%d, %zu [%s]) -> %d", s, sl, d, n, specs(o.n).c_str(), rc);
@@ -385,6 +387,25 @@ struct Exec {
     CHECK(cs <= b.m.len(), K("contig"), "contiguous space %zu exceeds length %zu", cs, b.m.len());
     if (cs) { unsigned char *p = evbuffer_pullup(b.eb, (ev_ssize_t)cs); CHECK(p && memcmp(p, b.m.d.data(), cs) == 0, K("contig"), "pullup(contiguous space) failed"); }
   }
+  void op_bufref(const Op &o) {
+    int d = o.b, s = o.b2; BufW &D = w.B[d], &S = w.B[s]; size_t sl = S.m.len();
+    if (D.m.len() > 40000 || S.fd_only || D.fd_only) return;
+    if (d != s && reaches(s, d)) { TR("  (add_buffer_reference buf%d<-buf%d skipped: would build a buffer-reference cycle)", d, s); w.n_cycle_skips++; return; }
+    bool unref = has_unreferenceable(s);
+    uint64_t f0 = sim_mem_failed; int rc = evbuffer_add_buffer_reference(D.eb, S.eb);
+    TR("  add_buffer_reference(dst buf%d, src buf%d [%zu bytes]) -> %d", d, s, sl, rc);
+    if (faulted(f0)) { w.abandon = true; return; }
+    int exp = sl == 0 ? 0 : (D.m.fz_end || d == s || unref) ? -1 : 0;
+    CHECK(rc == exp, K("bufref-ret"), "add_buffer_reference(buf%d<-buf%d [%zu bytes]) returned %d, expected %d (end frozen %d, source holds reference/file chains %d)", d, s, sl, rc, exp, D.m.fz_end, unref);
+    if (rc == 0 && sl && d != s) { m_append(d, S.m.d); w.sharing = true; w.n_bufref++; }
+  }
+  void op_recreate(const Op &o) {
+    if (w.use_cbs || w.B[o.b].fd_only) return;
+    for (int k = 0; k < NB; k++) if (k != o.b && (edges(k) & (1u << o.b))) return;   // still referenced as a source: keep it
+    BufW &b = w.B[o.b]; TR("  free(buf%d [%zu bytes]); buf%d = new", o.b, b.m.len(), o.b);
+    evbuffer_free(b.eb); b.eb = evbuffer_new(); if (!b.eb) abort();
+    b.m = Model(); w.n_recreate++;
+  }
   // --- callback management (C13) ------------------------------------------------------------------
   void op_cb_add(const Op &o) {
     if (!w.use_cbs || w.ncb >= MAXCB) return; int n = 0; for (int i = 0; i < w.ncb; i++) if (w.C[i].registered && w.C[i].buf == o.b) n++; if (n >= 3) return;
@@ -417,6 +438,12 @@ struct Exec {
 
   void run(const Op &o) {
     w.opno++; w.oom_hit_in_op = false;
+    {   // EVBUFFER_FLAG_DRAINS_TO_FD buffers: only appends, prepends, drains, freezes (nothing that reads or moves their bytes)
+      bool two = o.kind == K_ADD_BUFFER || o.kind == K_PREPEND_BUFFER || o.kind == K_REMOVE_BUFFER || o.kind == K_BUFREF;
+      if (w.B[o.b].fd_only || (two && w.B[o.b2].fd_only)) switch (o.kind) {
+        case K_ADD: case K_PREPEND: case K_PRINTF: case K_ADD_IOVEC: case K_ADD_REF: case K_RESERVE_COMMIT: case K_EXPAND: case K_DRAIN: case K_FREEZE: case K_UNFREEZE: break;
+        default: return; }
+    }
     snapshot_cbs();
     switch (o.kind) {   // everything that modifies or re-packs invalidates pointers into the buffers it touches
       case K_COPYOUT: case K_SEARCH: case K_SEARCH_EOL: case K_PEEK: case K_PTR_SET: case K_COPYOUT_FROM: case K_FREEZE: case K_UNFREEZE: case K_SEARCH_RANGE:
@@ -436,6 +463,7 @@ struct Exec {
       case K_FREEZE: op_freeze(o, true); break; case K_UNFREEZE: op_freeze(o, false); break; case K_ADD_REF: op_add_ref(o); break; case K_CONTIG: op_contig(o); break;
       case K_CB_ADD: op_cb_add(o); break; case K_CB_REMOVE: op_cb_remove(o); break; case K_CB_FLAGS: op_cb_flags(o); break;
       case K_TURN: TR("  turn"); do_turn(); break;
+      case K_BUFREF: op_bufref(o); break; case K_RECREATE: op_recreate(o); break;
       default: break;
     }
     apply_effs();
